@@ -22,7 +22,7 @@ var ffiModels = map[string]ffiModel{}
 // produced by foreign formatting of symbolic numbers).  Only concatenation and
 // identity comparison are supported on it.
 type opaqueSeg struct {
-	id   int
+	id   string // identity: same verb applied to the same term renders the same text
 	desc string
 }
 
@@ -294,6 +294,19 @@ func init() {
 		}
 		return nil, false
 	}
+	ffiModels["unicode/utf8.DecodeRuneInString"] = func(i *interpreter, fr *frame, args []value) (value, bool) {
+		s, ok := args[0].(*symStr)
+		if !ok {
+			return nil, false
+		}
+		if len(s.r) == 0 {
+			return tuple{int32(0xFFFD), int(0)}, true
+		}
+		if _, isO := s.r[0].(opaqueSeg); isO {
+			panic(pathAbort{abortUnsupported, "decoding opaque formatted text"})
+		}
+		return tuple{s.r[0], i.concreteRuneLen(s.r[0])}, true
+	}
 }
 
 // strIndex returns the first rune position where sub occurs in s (forking), or -1.
@@ -500,7 +513,7 @@ func modelSprintf(i *interpreter, fr *frame, args []value) (value, bool) {
 				out = append(out, x.r...)
 			} else {
 				i.path.Imprecise("Sprintf verb " + verb + " on symbolic string")
-				out = append(out, opaqueSeg{i.nextOpaque(), verb})
+				out = append(out, opaqueSeg{fmt.Sprintf("u%d", i.nextOpaque()), verb})
 			}
 		case *Sym:
 			if verb == "%c" {
@@ -510,11 +523,11 @@ func modelSprintf(i *interpreter, fr *frame, args []value) (value, bool) {
 				}
 			}
 			i.path.Imprecise("Sprintf of symbolic number")
-			out = append(out, opaqueSeg{i.nextOpaque(), verb})
+			out = append(out, opaqueSeg{fmt.Sprintf("%s|%d", verb, i.term(x).ID), verb})
 		default:
 			if anySymbolic([]value{itf.v}) {
 				i.path.Imprecise("Sprintf of value containing symbolic data")
-				out = append(out, opaqueSeg{i.nextOpaque(), verb})
+				out = append(out, opaqueSeg{fmt.Sprintf("u%d", i.nextOpaque()), verb})
 				break
 			}
 			nv := i.toNative(a, reflect_anyT)
